@@ -291,19 +291,13 @@ func init() {
 			neighbors := r.P.Field("workers/operator", "OperatorPartition", "neighbors")
 			needs := r.P.FuncObj("workers/operator", "(*neighborPartition).NeedsTable")
 			// spawn loop and result loop both range over o.neighbors
-			var loops []*ast.RangeStmt
-			inspect(f.Decl.Body, func(nd ast.Node) bool {
-				if rs, ok := nd.(*ast.RangeStmt); ok && prog.SelField(info, rs.X) == neighbors {
-					loops = append(loops, rs)
-				}
-				return true
-			})
+			loops := fullLoopsOver(info, f.Decl.Body, func(e ast.Expr) bool { return prog.SelField(info, e) == neighbors })
 			if len(loops) != 2 {
 				r.Error("undecided: ExclusivelyOwnsTable: expected an ask loop and a result loop over o.neighbors, found %d", len(loops))
 				return
 			}
 			ask, collect := loops[0], loops[1]
-			r.Site(ask.Pos(), "ExclusivelyOwnsTable: every neighbour is asked")
+			r.Site(ask.Stmt.Pos(), "ExclusivelyOwnsTable: every neighbour is asked")
 			if !r.exprCalls(info, ask.Body, needs) {
 				r.Fail(f.Name()+":ask", ask.Pos(), nil, "not every neighbour is asked whether it needs the table")
 			}
@@ -367,7 +361,7 @@ func init() {
 				return 0, false, false
 			}
 			spec.Step = func(c *pathsim.Ctx, s pathsim.State, ev *pathsim.Event) []pathsim.State {
-				if ev.Kind == pathsim.EvRangeIter && ev.Node == ast.Node(collect) {
+				if ev.Kind == pathsim.EvRangeIter && ev.Node == ast.Node(collect.Stmt) {
 					if s.A == 1 {
 						c.Violate(ev.Pos, "[needs-not-recorded] an iteration with result.needsTable established true ends without recording it")
 					}
@@ -404,7 +398,7 @@ func init() {
 			// mark iterations where needsTable is true but flag not set: use A=1 when V[0]==True observed at loop end
 			inner := spec.Step
 			spec.Step = func(c *pathsim.Ctx, s pathsim.State, ev *pathsim.Event) []pathsim.State {
-				if (ev.Kind == pathsim.EvRangeIter || ev.Kind == pathsim.EvLoopExit) && ev.Node == ast.Node(collect) && s.V[0] == pathsim.True && s.A != 2 {
+				if (ev.Kind == pathsim.EvRangeIter || ev.Kind == pathsim.EvLoopExit) && ev.Node == ast.Node(collect.Stmt) && s.V[0] == pathsim.True && s.A != 2 {
 					c.Violate(collect.Pos(), "[needs-not-recorded] a result with needsTable=true does not set the flag: the table would be judged exclusively owned although a neighbour needs it")
 				}
 				return inner(c, s, ev)
@@ -566,9 +560,13 @@ func init() {
 				if !ok || len(as.Lhs) != 1 || len(as.Rhs) != 1 {
 					return true
 				}
-				cl, ok := ast.Unparen(as.Rhs[0]).(*ast.CompositeLit)
+				rhs := ast.Unparen(as.Rhs[0])
+				if _, isCall := rhs.(*ast.CallExpr); isCall {
+					rhs = ast.Unparen(deref(ni, rhs)) // an extracted helper that returns the range
+				}
+				cl, ok := rhs.(*ast.CompositeLit)
 				if !ok || ni.TypeOf(cl) != kgrT.Type() {
-					if call, ok := ast.Unparen(as.Rhs[0]).(*ast.CallExpr); ok && r.P.CalleeFunc(ni, call) == fromBytes && len(call.Args) == 2 && isKeyPrefix(nt, call.Args[0], 2) && isKeyPrefix(nt, call.Args[1], 3) {
+					if call, ok := rhs.(*ast.CallExpr); ok && r.P.CalleeFunc(ni, call) == fromBytes && len(call.Args) == 2 && isKeyPrefix(nt, call.Args[0], 2) && isKeyPrefix(nt, call.Args[1], 3) {
 						ntRange = prog.IdentObj(ni, as.Lhs[0])
 					}
 					return true
@@ -888,8 +886,37 @@ func init() {
 			ii := it.Pkg.TypesInfo
 			cpInc := r.P.FuncObj("dkv/recovery", "(*Checkpoint).IncludesTable")
 			okAny := false
+			// the checkpoint's own answer may be inlined: `_, ok := cp.tableURIset[uri]`
+			uriSet := r.P.TryField("dkv/recovery", "Checkpoint", "tableURIset")
+			lookupOK := map[types.Object]bool{}
+			if uriSet != nil {
+				inspect(it.Decl.Body, func(m ast.Node) bool {
+					as, isAs := m.(*ast.AssignStmt)
+					if !isAs || len(as.Lhs) != 2 || len(as.Rhs) != 1 {
+						return true
+					}
+					ix, isIx := ast.Unparen(as.Rhs[0]).(*ast.IndexExpr)
+					if !isIx || prog.SelField(ii, ix.X) != uriSet || !r.isParam(it, ix.Index, 0) {
+						return true
+					}
+					if o := prog.IdentObjPlain(ii, as.Lhs[1]); o != nil {
+						lookupOK[o] = true
+					}
+					return true
+				})
+			}
+			usesLookup := func(n ast.Node) bool {
+				found := false
+				inspect(n, func(m ast.Node) bool {
+					if id, isID := m.(*ast.Ident); isID && (lookupOK[ii.Uses[id]] || lookupOK[ii.Defs[id]]) {
+						found = true
+					}
+					return !found
+				})
+				return found
+			}
 			for _, lp := range fullLoopsOver(ii, it.Decl.Body, func(e ast.Expr) bool { return prog.SelField(ii, e) == ck }) {
-				if !r.exprCalls(ii, lp.Body, cpInc) {
+				if !r.exprCalls(ii, lp.Body, cpInc) && !usesLookup(lp.Body) {
 					continue
 				}
 				okAny = true
@@ -1008,6 +1035,9 @@ func init() {
 			polSpec := &pathsim.Spec{
 				Atom: func(c *pathsim.Ctx, e ast.Expr) (int, bool, bool) {
 					if call, ok := ast.Unparen(e).(*ast.CallExpr); ok && r.P.CalleeFunc(c.Info, call) == cpInc {
+						return 0, false, true
+					}
+					if id, ok := ast.Unparen(e).(*ast.Ident); ok && lookupOK[c.Info.Uses[id]] {
 						return 0, false, true
 					}
 					return 0, false, false
